@@ -795,7 +795,7 @@ def main() -> int:
     registry_code()
     vseed = core.verif_seed()
     print(f"VERIF_SEED={vseed} property={PROP} tier={args.tier} tree={core.src_dir()} workers={core.workers()}")
-    counts = args.runs or ([4000, 500, 800, 300] if args.tier == "quick" else [600_000, 40_000, 100_000, 20_000])
+    counts = args.runs or ([12000, 1500, 2400, 900] if args.tier == "quick" else [600_000, 40_000, 100_000, 20_000])
     nfresh = args.fresh if args.fresh is not None else (12 if args.tier == "quick" else 96)
     tasks = []
     deadline = runner.wall_cap(args.tier)
